@@ -10,7 +10,7 @@ use crate::oracle::Finding;
 use crate::prng::{Digest, Rng};
 use crate::simio::SimReader;
 use crate::world::*;
-use in_toto::interchange::{DataInterchange, Json};
+use in_toto::interchange::{DataInterchange, Json, JsonPretty};
 use serde::de::DeserializeOwned;
 use serde::{Deserialize, Serialize};
 use serde_json::{json, Value};
@@ -31,6 +31,10 @@ pub struct ChannelTrace {
     /// read(2)-level faults on the file channel: (short per-mille, eintr per-mille)
     pub file_faults: Option<(u64, u64)>,
     pub labels: Vec<String>,
+    /// characters put in front of and behind the document by the transport (white space for Unicode,
+    /// not necessarily for JSON)
+    #[serde(default)]
+    pub pad: Option<(String, String)>,
 }
 
 // ---------------------------------------------------------------------------------------------
@@ -176,11 +180,13 @@ fn decode_all<T: DeserializeOwned + PartialEq + Send + 'static>(t: &ChannelTrace
                 push("serde_json::from_str", sp, serde_json::from_str::<T>(text).map_err(|e| e.to_string()), false, &mut results, &mut values);
                 push("serde_json::from_slice", sp, serde_json::from_slice::<T>(text.as_bytes()).map_err(|e| e.to_string()), false, &mut results, &mut values);
                 push("Json::from_slice", sp, Json::from_slice::<T>(text.as_bytes()).map_err(|e| e.to_string()), false, &mut results, &mut values);
+                push("JsonPretty::from_slice", sp, JsonPretty::from_slice::<T>(text.as_bytes()).map_err(|e| e.to_string()), false, &mut results, &mut values);
                 // JSON tree
                 match serde_json::from_str::<Value>(text) {
                     Ok(tree) => {
                         push("serde_json::from_value", sp, serde_json::from_value::<T>(tree.clone()).map_err(|e| e.to_string()), false, &mut results, &mut values);
                         push("Json::deserialize", sp, Json::deserialize::<T>(&tree).map_err(|e| e.to_string()), false, &mut results, &mut values);
+                        push("JsonPretty::deserialize", sp, JsonPretty::deserialize::<T>(&tree).map_err(|e| e.to_string()), false, &mut results, &mut values);
                     }
                     Err(e) => {
                         push("serde_json::from_value", sp, Err(e.to_string()), false, &mut results, &mut values);
@@ -200,6 +206,13 @@ fn decode_all<T: DeserializeOwned + PartialEq + Send + 'static>(t: &ChannelTrace
                     io.0 += rd.stats.short;
                     io.1 += rd.stats.eintr;
                     push("Json::from_reader", sp, r, false, &mut results, &mut values);
+                }
+                {
+                    let mut rd = SimReader::new(text.as_bytes(), t2.io_seed ^ 3, t2.chunked, t2.eintr_pct, None);
+                    let r = JsonPretty::from_reader::<_, T>(&mut rd).map_err(|e| e.to_string());
+                    io.0 += rd.stats.short;
+                    io.1 += rd.stats.eintr;
+                    push("JsonPretty::from_reader", sp, r, false, &mut results, &mut values);
                 }
                 if let Some(fa) = t2.fail_at {
                     let mut rd = SimReader::new(text.as_bytes(), t2.io_seed ^ 2, t2.chunked, t2.eintr_pct, Some(fa % (text.len() + 1)));
@@ -260,6 +273,11 @@ pub fn run_channel(t: &ChannelTrace, scratch: &Scratch) -> ChannelOutcome {
             respelled = true;
         }
     }
+    if let Some((a, b)) = &t.pad {
+        let base = texts.last().map(|x| x.1.clone()).unwrap_or_default();
+        texts.push(("padded", format!("{a}{base}{b}")));
+        respelled = true;
+    }
     let file = scratch.side().join("channel-doc.json");
     let dev = std::fs::metadata(scratch.side()).map(|m| m.dev()).unwrap_or(0);
     let mut o = match t.kind.as_str() {
@@ -280,38 +298,56 @@ pub fn run_channel(t: &ChannelTrace, scratch: &Scratch) -> ChannelOutcome {
     o
 }
 
-pub fn judge_channel(_t: &ChannelTrace, o: &ChannelOutcome) -> Vec<Finding> {
+pub fn judge_channel(t: &ChannelTrace, o: &ChannelOutcome) -> Vec<Finding> {
     let mut f = vec![];
     if let Some(p) = &o.panic {
         f.push(Finding { prop: "C14".into(), clause: "panic-in-decoder".into(), detail: p.clone() });
         return f;
     }
-    let strict: Vec<&ChanResult> = o.results.iter().filter(|r| !r.may_fail).collect();
-    let n_ok = strict.iter().filter(|r| r.ok).count();
-    if n_ok != 0 && n_ok != strict.len() {
-        let good = strict.iter().find(|r| r.ok).unwrap();
-        let bad = strict.iter().find(|r| !r.ok).unwrap();
-        let clause = if good.spelling == bad.spelling { "channels-disagree" } else { "spellings-disagree" };
-        // prefer reporting a pure channel disagreement (same spelling) when there is one
-        let same_spelling = strict.iter().any(|a| strict.iter().any(|b| a.spelling == b.spelling && a.ok != b.ok));
-        let clause = if same_spelling { "channels-disagree" } else { clause };
-        f.push(Finding {
-            prop: "C17".into(),
-            clause: clause.into(),
-            detail: format!("accepted by {} ({}) but rejected by {} ({}): {}", good.channel, good.spelling, bad.channel, bad.spelling, bad.err),
-        });
+    // padding with characters that are not JSON white space makes another document: it is judged as
+    // a group of its own (all channels must still agree on it), not against the unpadded spellings
+    let json_ws = |s: &str| s.chars().all(|c| c == ' ' || c == '\n' || c == '\t' || c == '\r');
+    let other_doc = t.pad.as_ref().map(|(a, b)| !json_ws(a) || !json_ws(b)).unwrap_or(false);
+    let group_of = |r: &ChanResult| if r.spelling == "padded" && other_doc { 1 } else { 0 };
+    for g in 0..2 {
+        let strict: Vec<&ChanResult> = o.results.iter().filter(|r| !r.may_fail && group_of(r) == g).collect();
+        if strict.is_empty() {
+            continue;
+        }
+        let n_ok = strict.iter().filter(|r| r.ok).count();
+        if n_ok != 0 && n_ok != strict.len() {
+            let good = strict.iter().find(|r| r.ok).unwrap();
+            let bad = strict.iter().find(|r| !r.ok).unwrap();
+            let same_spelling = strict.iter().any(|a| strict.iter().any(|b| a.spelling == b.spelling && a.ok != b.ok));
+            let clause = if same_spelling { "channels-disagree" } else { "spellings-disagree" };
+            let (good, bad) = if same_spelling {
+                let a = strict.iter().find(|a| strict.iter().any(|b| a.spelling == b.spelling && a.ok && !b.ok)).unwrap_or(good);
+                let b = strict.iter().find(|b| b.spelling == a.spelling && !b.ok).unwrap_or(bad);
+                (a, b)
+            } else {
+                (good, bad)
+            };
+            f.push(Finding {
+                prop: "C17".into(),
+                clause: clause.into(),
+                detail: format!("accepted by {} ({}) but rejected by {} ({}): {}", good.channel, good.spelling, bad.channel, bad.spelling, bad.err),
+            });
+            break;
+        }
+        // a hard stream error may only turn Ok into Err
+        if strict.iter().all(|r| !r.ok) {
+            if let Some(r) = o.results.iter().find(|r| r.may_fail && r.ok && group_of(r) == g) {
+                f.push(Finding { prop: "C17".into(), clause: "accepted-only-under-stream-error".into(), detail: format!("{} accepted a document every other channel rejects", r.channel) });
+            }
+        }
     }
     if let Some((a, b)) = o.unequal {
-        f.push(Finding {
-            prop: "C17".into(),
-            clause: "values-differ".into(),
-            detail: format!("{} ({}) and {} ({}) both accept but yield different values", o.results[a].channel, o.results[a].spelling, o.results[b].channel, o.results[b].spelling),
-        });
-    }
-    // a hard stream error may only turn Ok into Err
-    if strict.iter().all(|r| !r.ok) {
-        if let Some(r) = o.results.iter().find(|r| r.may_fail && r.ok) {
-            f.push(Finding { prop: "C17".into(), clause: "accepted-only-under-stream-error".into(), detail: format!("{} accepted a document every other channel rejects", r.channel) });
+        if group_of(&o.results[a]) == group_of(&o.results[b]) {
+            f.push(Finding {
+                prop: "C17".into(),
+                clause: "values-differ".into(),
+                detail: format!("{} ({}) and {} ({}) both accept but yield different values", o.results[a].channel, o.results[a].spelling, o.results[b].channel, o.results[b].spelling),
+            });
         }
     }
     f
@@ -527,7 +563,12 @@ pub fn run_c17(tier: Tier, seed: u64, index: u64, scratch: &Scratch, rec: &mut R
         gen::leaves(&doc, "", &mut ls);
         if !ls.is_empty() {
             let (ptr, old) = r.pick(&ls).clone();
-            let nv = gen::mutate_leaf(&mut r, &old);
+            let nv = match (&old, r.below(4)) {
+                // a string of another length (key ids, digests and signatures have fixed lengths)
+                (Value::String(sv), 0) => json!(format!("{sv}0")),
+                (Value::String(sv), 1) if !sv.is_empty() => json!(sv[..sv.len() - sv.chars().last().unwrap().len_utf8()].to_string()),
+                _ => gen::mutate_leaf(&mut r, &old),
+            };
             if let Some(slot) = doc.pointer_mut(&ptr) {
                 *slot = nv;
                 labels.push("DAMAGED-LEAF".into());
@@ -549,6 +590,12 @@ pub fn run_c17(tier: Tier, seed: u64, index: u64, scratch: &Scratch, rec: &mut R
             fail_at: if r.chance(1, 3) { Some(r.next() as usize % 100_000) } else { None },
             file_faults: if tier == Tier::Thorough && r.chance(1, 2) { Some((300, 100)) } else { None },
             labels: labels.clone(),
+            pad: if r.chance(1, 4) {
+                let ws = [" ", "\n", "\t", "\r\n", "\u{c}", "\u{b}", "\u{a0}", "\u{85}", "\u{2028}", "\u{3000}", "\u{feff}", "\u{0}"];
+                Some((r.pick(&ws).to_string(), r.pick(&ws).to_string()))
+            } else {
+                None
+            },
         };
         let own = exec_and_fold(&t, scratch, rec, seed, index, "C17");
         if !own.is_empty() {
@@ -582,6 +629,7 @@ pub fn minimise(prop: &str, clause: &str, t: &ChannelTrace, scratch: &Scratch) -
                 x.ws = 0;
             }
             if d {
+                x.pad = None;
                 x.chunked = false;
                 x.eintr_pct = 0;
                 x.fail_at = None;
